@@ -36,6 +36,31 @@ Proof. destruct w; simpl; try discriminate; reflexivity. Qed.
 Lemma with_is_link_not_object w : with_is_link_m w = true -> as_kind KObject w = None.
 Proof. destruct w as [| | | ? k ? | |]; simpl; try discriminate; try reflexivity. destruct k; simpl; try discriminate; reflexivity. Qed.
 
+(* From here on every lemma is GENERIC in the IRI comparison (builder b47; see Proofs/EqualP.v): inside the section the
+   short names stand for the generic definitions (modules EqG, EtG) applied to [ideq]; after the module the same
+   names are re-established for iri_eqb by instantiation. *)
+Module EtGP.
+Section IdRel.
+  Variable ideq : bytes -> bytes -> bool -> bool.
+  Local Notation cmp_one := (EqG.cmp_one ideq).
+  Local Notation all_cmp := (EqG.all_cmp ideq).
+  Local Notation object_equals := (EqG.object_equals ideq).
+  Local Notation intransitive_equals := (EqG.intransitive_equals ideq).
+  Local Notation activity_equals := (EqG.activity_equals ideq).
+  Local Notation actor_equals := (EqG.actor_equals ideq).
+  Local Notation collection_equals := (EqG.collection_equals ideq).
+  Local Notation page_equals := (EqG.page_equals ideq).
+  Local Notation ordered_equals := (EqG.ordered_equals ideq).
+  Local Notation opage_equals := (EqG.opage_equals ideq).
+  Local Notation link_equals := (EqG.link_equals ideq).
+  Local Notation equals_method := (EqG.equals_method ideq).
+  Local Notation guard_fires := (EtG.guard_fires ideq).
+  Local Notation run_guards := (EtG.run_guards ideq).
+  Local Notation run_csteps := (EtG.run_csteps ideq).
+  Local Notation interp_with := (EtG.interp_with ideq).
+  Local Notation interp_method := (EtG.interp_method ideq).
+  Local Notation equals_method_t := (EtG.equals_method_t ideq).
+
 (* ---------------------------------------------------------------- the interpreter is extensional *)
 Section Ext.
   Variable rec : item -> item -> outcome bool.
@@ -48,7 +73,7 @@ Section Ext.
     destruct s; cbn [run_csteps].
     - destruct (cast_ok b self); [|apply IH]. rewrite Hc. destruct (c2 b ofs (IObj true view wfs)); try reflexivity. apply IH.
     - destruct (cast_ok b self); [|apply IH]. rewrite Hc. destruct (c2 b ofs (IObj true view wfs)); try reflexivity. apply IH.
-    - destruct (iri_eqb _ _ _); [apply IH|reflexivity].
+    - destruct (ideq _ _ _); [apply IH|reflexivity].
     - destruct (fold_eqb _ _); [apply IH|reflexivity].
     - destruct (cmp_one cfg_fixed rec c ofs wfs) as [[|]| | |]; try reflexivity. apply IH.
   Qed.
@@ -84,9 +109,9 @@ Section Ext.
     destruct (is_nil w) eqn:Hn; [reflexivity|].
     destruct (is_item_collection w); [reflexivity|].
     rewrite (get_link_nonnil w Hn), (get_type_nonnil w Hn). cbn [obind].
-    destruct (iri_eqb (get_str F_ID ofs) (lnk w) true); [|reflexivity]. cbn [negb].
+    destruct (ideq (get_str F_ID ofs) (lnk w) true); [|reflexivity]. cbn [negb].
     destruct (fold_eqb (get_str F_Type ofs) (typ w)); [|reflexivity]. cbn [negb].
-    destruct (with_is_link_m w && negb (iri_eqb (lnk w) (get_str F_ID ofs) false)) eqn:Hl.
+    destruct (with_is_link_m w && negb (ideq (lnk w) (get_str F_ID ofs) false)) eqn:Hl.
     - apply andb_prop in Hl. destruct Hl as [Hl _]. rewrite (with_is_link_not_object w Hl). reflexivity.
     - destruct (as_kind KObject w) as [wfs|]; [|reflexivity].
       rewrite run_cmps. cbn [andb]. apply obind_eta.
@@ -190,7 +215,7 @@ Section Ext.
     open_method. unfold link_equals. cbn [guard_fires obind].
     destruct (is_nil w || negb (is_link w)); [reflexivity|].
     destruct (as_kind KLink w) as [wfs|]; [|reflexivity].
-    destruct (iri_eqb (get_str F_ID ofs) (get_str F_ID wfs) true); [|reflexivity]. cbn [negb].
+    destruct (ideq (get_str F_ID ofs) (get_str F_ID wfs) true); [|reflexivity]. cbn [negb].
     destruct (fold_eqb (get_str F_Type ofs) (get_str F_Type wfs)); [|reflexivity]. cbn [negb].
     rewrite run_cmps. cbn [andb]. apply obind_eta.
   Qed.
@@ -231,3 +256,24 @@ Proof. intros tbl others H rec k fs w. apply (equals_table_tie rec tbl others H)
 Theorem interp_model_shape' : forall rec k fs w,
   interp_method rec model_shape k fs w = equals_method cfg_fixed rec k fs w.
 Proof. intros. apply interp_model_shape. Qed.
+End IdRel.
+End EtGP.
+
+Definition run_csteps_ext := EtGP.run_csteps_ext iri_eqb.
+Definition interp_with_ext := EtGP.interp_with_ext iri_eqb.
+Definition run_cmps := EtGP.run_cmps iri_eqb.
+Definition iw_object := EtGP.iw_object iri_eqb.
+Definition iw_unfold := EtGP.iw_unfold iri_eqb.
+Definition guard_notcoll_nonnil := EtGP.guard_notcoll_nonnil iri_eqb.
+Definition iw_intransitive := EtGP.iw_intransitive iri_eqb.
+Definition iw_activity := EtGP.iw_activity iri_eqb.
+Definition iw_actor := EtGP.iw_actor iri_eqb.
+Definition iw_collection := EtGP.iw_collection iri_eqb.
+Definition iw_page := EtGP.iw_page iri_eqb.
+Definition iw_ordered := EtGP.iw_ordered iri_eqb.
+Definition iw_opage := EtGP.iw_opage iri_eqb.
+Definition iw_link := EtGP.iw_link iri_eqb.
+Definition interp_model_shape := EtGP.interp_model_shape iri_eqb.
+Definition equals_table_tie := EtGP.equals_table_tie iri_eqb.
+Definition equals_table_tie' := EtGP.equals_table_tie' iri_eqb.
+Definition interp_model_shape' := EtGP.interp_model_shape' iri_eqb.
